@@ -6,15 +6,18 @@ set -euo pipefail
 FLAV="${1:?flavour}"
 HERE="$(cd "$(dirname "${BASH_SOURCE[0]}")/.." && pwd)"
 REPO="${2:-${VERIF_REPO:-/repo}}"
-BDIR="$HERE/.build/$FLAV"
+# builds of a scratch copy of the repository (VERIF_REPO != /repo) get their own directory
+SUF=""
+if [ "$REPO" != "/repo" ]; then SUF="-$(echo -n "$REPO" | md5sum | cut -c1-8)"; fi
+BDIR="$HERE/.build/$FLAV$SUF"
 mkdir -p "$HERE/.build"
 case "$FLAV" in
   san)   FLAGS="-O1 -g -fno-omit-frame-pointer -fsanitize=address,undefined -fno-sanitize-recover=all -DRIME_VERIF -Wno-error" ; LFLAGS="-fsanitize=address,undefined" ;;
   tsan)  FLAGS="-O1 -g -fno-omit-frame-pointer -fsanitize=thread -DRIME_VERIF -Wno-error" ; LFLAGS="-fsanitize=thread" ;;
-  plain) FLAGS="-O1 -g -DRIME_VERIF -Wno-error" ; LFLAGS="" ;;
+  plain) FLAGS="-O1 -g -DNDEBUG -DRIME_VERIF -Wno-error" ; LFLAGS="" ;;
   *) echo "unknown flavour $FLAV" >&2; exit 2 ;;
 esac
-exec 9>"$HERE/.build/$FLAV.lock"
+exec 9>"$HERE/.build/$FLAV$SUF.lock"
 flock 9
 if [ ! -f "$BDIR/build.ninja" ] || ! grep -q "CMAKE_HOME_DIRECTORY:INTERNAL=$REPO\$" "$BDIR/CMakeCache.txt" 2>/dev/null; then
   rm -rf "$BDIR"
